@@ -5,7 +5,7 @@ from .. import framework as F, ref_deflate, ref_utf8, ref_ws, scen, world as W
 from ..ref_ws import SFrame, TEXT, CONT, CLOSE, PING
 
 # one representative per DFA class x per RFC 3629 range edge
-REPS = [0x00, 0x7F, 0x80, 0x8F, 0x90, 0x9F, 0xA0, 0xBF, 0xC0, 0xC1, 0xC2, 0xDF, 0xE0, 0xE1, 0xEC, 0xED, 0xEE, 0xEF,
+REPS = [0x00, 0x7F, 0x80, 0x8F, 0x90, 0x9F, 0xA0, 0xBB, 0xBF, 0xC0, 0xC1, 0xC2, 0xDF, 0xE0, 0xE1, 0xEC, 0xED, 0xEE, 0xEF,
         0xF0, 0xF1, 0xF3, 0xF4, 0xF5, 0xFF]
 EXT = scen.DEFLATE_HDR
 KINDS = frozenset(['not-rejected', 'false-rejection', 'events-differ', 'late-rejection', 'early-rejection', 'leak-after-violation',
@@ -37,7 +37,7 @@ class C05(F.Check):
     assumptions = [
         'pure-Python Utf8Validator (wsaccel is not installed); its state is read through the _state slot when present, otherwise only the black-box prefix-replay part runs',
         '"uncompressed text" in the fail-fast clause is read as "no permessage-deflate negotiated" (on a negotiated connection only the iff-verdict is checked)',
-        'byte classes: one representative per DFA input class and per RFC 3629 range edge (24 bytes); the product-automaton part covers all 256 bytes',
+        'byte classes: one representative per DFA input class and per RFC 3629 range edge, plus 0xBB so that the byte-order mark EF BB BF is a member (25 bytes); the product-automaton part covers all 256 bytes',
         'CPython strict decoder is used only as a cross-check of the reference automaton, never as the oracle for lomond',
     ]
     expect_sites = ('product', 'valid', 'violation', 'failfast', 'close-reason', 'negotiated')
@@ -45,7 +45,7 @@ class C05(F.Check):
     def rule(self, tier):
         n = 4 if tier == 'thorough' else 3
         return ('(a) BFS over reachable (validator state, reference state) pairs x 256 bytes; black-box replay of every reference-state prefix x all 1- and 2-byte continuations, byte-wise and chunked; '
-                '(b) every string over 24 class representatives up to length %d delivered as one frame, split into two fragments at every position, with a Ping between the fragments, '
+                '(b) every string over 25 class representatives up to length %d delivered as one frame, split into two fragments at every position, with a Ping between the fragments, '
                 'each in one read and byte-wise, and as a Close reason; (c) the same strings up to length %d on a negotiated connection, uncompressed and compressed. '
                 'distinct = distinct (string class verdict, event-name sequence)' % (n, n - 1))
 
